@@ -145,6 +145,15 @@ def w_frames(acc, L, prefix):
             acc.run("split", o_split, fr % mid, True)
 
 
+def w_large(acc, n):
+    names = ["Name%d von Last%d, Jr, {First and %d}" % (i, i, i) if i % 3 else "\\'E%d~Knuth" % i for i in range(n)]
+    for sep in (" and ", "\nAND\t", "  and\r\n"):
+        acc.run("split", o_split, sep.join(names), True)
+    acc.run("split", o_split, " and ".join(["and"] * n), True)
+    acc.run("split", o_split, "{" * n + "a and b" + "}" * n + " and c", True)
+    acc.classes["large-list"] += 1
+
+
 def w_after_name_parsing(acc, L, prefix):
     """The splitter must not depend on what was called before it: same frame enumeration, interleaved with
     calls to the name-part parser and the name middlewares (which live in the same module)."""
@@ -233,6 +242,7 @@ def run(chk):
     quick = chk.tier == "quick"
     max_len = 5 if quick else 6
     tasks = [("w_enum", t) for t in tokens.seq_tasks(tokens.SIGMA_A, max_len)]
+    tasks += [("w_large", (n,)) for n in (130, 300, 1100, 4200)]
     frame_len = 3 if quick else 4
     tasks += [("w_frames", t) for t in tokens.seq_tasks(tokens.SIGMA_A, frame_len, prefix_len=1)]
     tasks += [("w_after_name_parsing", t) for t in tokens.seq_tasks(tokens.SIGMA_A, frame_len, prefix_len=1)]
